@@ -329,5 +329,22 @@ def blocks_calling(fn, db, targets, binding=None):
     return out
 
 
+def blocks_reaching(fn, db, targets, binding=None):
+    """blocks of fn whose terminator calls one of `targets` directly or a workspace function from which one of them is
+    reachable in the call graph (a stage function, a helper): 'the call that leads to X' however the code is staged"""
+    out = set()
+    memo = {}
+
+    def reaches(p):
+        if p not in memo:
+            memo[p] = p in targets or any(x in targets for x in db.reach([p], binding))
+        return memo[p]
+    for bi, t in fn.calls():
+        res = db.resolve(t['f'], binding)
+        if any(reaches(r) for r in res) or callee_path(t) in targets:
+            out.add(bi)
+    return out
+
+
 def path_lines(fn, path):
     return [fn.blocks[b]['term']['line'] for b in path]
